@@ -191,7 +191,7 @@ pub fn run(ctx: &Ctx) -> Report {
          send paths: direct, automatic responses, stored-and-resent, alias-rewritten; limits may shrink on resume. Monitor: every RequestSendPacket has size() and encoded length <= limit; oversize stored packets are dropped with release; \
          oversize inbound frames are not delivered and answered with DISCONNECT 0x95. non-trivial = some packet size was within +-3 of the limit in force",
     );
-    let n = ctx.tier.pick(150_000, 2_000_000);
+    let n = ctx.tier.pick(400_000, 2_000_000);
     let (st, v) = search(ctx, "c14.history", n, strategy, test);
     rep.absorb("histories", st, v, false);
     rep.assumptions.push("the limit in force is the one the harness itself put into the peer's CONNECT/CONNACK; DISCONNECT 0x95 is only required on an established connection and when it fits the peer's own limit".into());
